@@ -17,7 +17,8 @@ PLAN = [
 ]
 def sh(cmd, **kw):
     return subprocess.run(cmd, shell=True, capture_output=True, text=True, **kw)
-res = []
+OUT = os.path.join(ROOT, "tools", "revert_results.json")
+res = {e["commit"]: e for e in json.load(open(OUT))} if os.path.exists(OUT) else {}
 only = sys.argv[1:]
 for sha, props in PLAN:
     if only and sha not in only:
@@ -40,6 +41,6 @@ for sha, props in PLAN:
                     pass
             entry["checks"][pid] = {"rc": r.returncode, "violations": len(vio), "nofail": sum("no-failing-input-found" in l for l in vio), "kinds": kinds[:4]}
     sh("git -C /repo checkout -- . ; rm -f /tmp/rev_%s.patch" % sha)
-    res.append(entry)
+    res[sha] = entry
+    json.dump([res[k] for k, _ in PLAN if k in res], open(OUT, "w"), indent=1)
     print(sha, subj[:50], {k: (v["rc"], v["violations"], v["nofail"]) for k, v in entry["checks"].items()}, flush=True)
-json.dump(res, open(os.path.join(ROOT, "tools", "revert_results.json"), "w"), indent=1)
